@@ -11,27 +11,28 @@
 (* 1. Trace invariants, which the properties state and the trace shows    *)
 (*    (VERDICT lines): the program counter stays inside the block and     *)
 (*    strictly increases within an activation, every instruction finds    *)
-(*    its operands on the stack (C10); a nested activation is deeper than *)
-(*    the one that started it, the activations one site starts - loop     *)
-(*    iterations, arguments - share one depth, and no instruction runs    *)
-(*    beyond the limit (C12).                                             *)
+(*    its operands on the stack (C10); the activations started from one    *)
+(*    activation - loop iterations, arguments - share one depth count:    *)
+(*    iterating does not consume the depth budget (C12).                  *)
 (* 2. Step conformance (DRIFT lines, diagnostic): the next recorded       *)
 (*    <<pc, stack>> of an activation is Step1 of VM.tla.  It keeps the    *)
-(*    model honest; a drift is not a violation of any property.           *)
+(*    model honest; a drift is not a violation of any property.  So are  *)
+(*    the facts about how this implementation counts depth (child =       *)
+(*    parent + 1, nothing runs beyond 32).                                *)
 (* 3. Candidates (CAND lines): the REAL bytecode is run on VM.tla under   *)
 (*    every valuation of up to three variables over a pool of truthy,     *)
 (*    falsy, non-boolean and unbound values and compared with Eval of the *)
 (*    tree.  A disagreement is a valuation worth executing: the driver    *)
 (*    replays it on the real interpreter and Trace_Eval judges it.        *)
 (***************************************************************************)
-EXTENDS VM, AbsVM, TLC, Json, IOUtils
+EXTENDS Compile, AbsVM, TLC, Json, IOUtils
 
 Rec == ndJsonDeserialize(IOEnv.TRACE)
 Fld(r, f) == IF f \in DOMAIN r THEN r[f] ELSE <<>>
 VmObs(r) == LET S == {i \in 1..Len(r.obs) : r.obs[i].form = "vm"} IN IF S = {} THEN <<>> ELSE r.obs[CHOOSE i \in S : TRUE]
 
-VARIABLES l, nbad, nsteps, ndrift, ncand, nvals
-vars == <<l, nbad, nsteps, ndrift, ncand, nvals>>
+VARIABLES l, nbad, nsteps, ndrift, ncand, nvals, ncomp
+vars == <<l, nbad, nsteps, ndrift, ncand, nvals, ncomp>>
 
 ----------------------------------------------------------------------------
 (* events *)
@@ -46,16 +47,20 @@ StepBad(ev, i) ==
     LET e == ev[i]  en == EnterOf(ev, e.f)  code == en.code
         nx == NextOfFrame(ev, i)
     IN IF e.pc >= Len(code) THEN "pc-outside-block"
-       ELSE IF en.g > DepthLimit THEN "step-beyond-depth-limit"
        ELSE IF Len(e.st) < Pops(code[e.pc + 1]) THEN "pop-from-empty-stack"
        ELSE IF nx # 0 /\ IsStep(ev[nx]) /\ ev[nx].pc <= e.pc THEN "pc-not-increasing"
        ELSE "ok"
 EnterBad(ev, i) ==
     LET e == ev[i] IN
     IF e.detached THEN "ok"                                   \* a context-free evaluation (a macro reading the name of its loop variable)
-    ELSE IF e.p # 0 /\ ~EnterOf(ev, e.p).detached /\ e.g <= EnterOf(ev, e.p).g THEN "nested-activation-not-deeper"
     ELSE IF \E j \in 1..(i - 1) : IsEnter(ev[j]) /\ ev[j].p = e.p /\ ~ev[j].detached /\ ev[j].g # e.g THEN "sibling-activations-differ-in-depth"
     ELSE "ok"
+(* how this implementation counts (diagnostic only: the properties fix neither the limit nor what exactly is counted) *)
+EnterDrift(ev, i) ==
+    LET e == ev[i] IN
+    ~e.detached /\ ( (e.p # 0 /\ ~EnterOf(ev, e.p).detached /\ e.g # EnterOf(ev, e.p).g + 1)
+                    \/ (e.p = 0 /\ e.g # 1)
+                    \/ (e.g > DepthLimit /\ \E j \in 1..Len(ev) : IsStep(ev[j]) /\ ev[j].f = e.f) )
 
 (* 2. step conformance *)
 SameItem(a, b) == IF a.t = "bound" /\ b.t = "bound" THEN a.recv = b.recv
@@ -80,6 +85,32 @@ Drift(r, vm, ev, i) ==
        ELSE IF IsStep(ev[nx]) THEN ~(s.k = "next" /\ s.pc = ev[nx].pc /\ SameStack(s.stack, ev[nx].st))
        ELSE ~(s.k = "hard" \/ s.pc >= Len(code))                  \* the activation ended here
 
+(* 2b. compiler conformance (diagnostic): where nothing can fold - a tree without literals - the real compiler's *)
+(* output is Compile(tree) of Compile.tla, the schemes MC_Lazy checks against the reference evaluator               *)
+RECURSIVE HasLit(_), AnyLit(_, _), SameCode(_, _)
+AnyLit(ts, i) == i <= Len(ts) /\ (HasLit(ts[i]) \/ AnyLit(ts, i + 1))
+HasLit(t) ==
+    CASE t.k = "lit" -> TRUE
+      [] t.k = "id" -> FALSE
+      [] t.k \in {"paren", "un", "sel"} -> HasLit(t.e)
+      [] t.k = "bin" -> HasLit(t.l) \/ HasLit(t.r)
+      [] t.k = "tern" -> HasLit(t.c) \/ HasLit(t.a) \/ HasLit(t.b)
+      [] t.k = "list" -> t.es = <<>> \/ AnyLit(t.es, 1)
+      [] t.k = "idx" -> HasLit(t.e) \/ HasLit(t.i)
+      [] t.k = "call" -> (t.args = <<>> /\ t.f \in BuiltinNames \cup TypeNames \cup {"coalesce"}) \/ AnyLit(t.args, 1)
+      [] t.k = "mcall" -> HasLit(t.r) \/ AnyLit(t.args, 1)
+      [] OTHER -> TRUE                                   \* maps, f-strings, match: not compared
+SameOperand(a, b) == IF a.t = "ident" /\ b.t = "ident" THEN a.n = b.n
+                     ELSE IF a.t = "code" /\ b.t = "code" THEN SameCode(a.c, b.c)
+                     ELSE a = b
+SameCode(x, y) == Len(x) = Len(y) /\ \A k \in 1..Len(x) :
+                     /\ x[k].op = y[k].op
+                     /\ (x[k].op = "PUSH" => SameOperand(x[k].v, y[k].v))
+                     /\ (x[k].op \in {"JMP", "JMPC"} => x[k].d = y[k].d)
+                     /\ (x[k].op = "JMPC" => x[k].when = y[k].when)
+                     /\ (x[k].op \in {"CALL", "MKLIST", "MKDICT", "FMT"} => x[k].n = y[k].n)
+CompileDrift(r, vm) == ~HasLit(r.tree) /\ ~SameCode(C(r.tree), vm.blocks[1])
+
 (* 3. all valuations of the real bytecode *)
 Pool == <<VTrue, VFalse, VInt(BFromInt(1)), VInt(BFromInt(0)), VStr(<<>>), VNull, [t |-> "unbound"]>>
 VarNames(r) == LET D == DOMAIN Fld(r, "bind")
@@ -99,7 +130,7 @@ Candidates(r, vm) ==
     {val \in [names -> 1..Len(Pool)] : Disagree(r, vm, VarsUnder(r, names, val))}
 
 ----------------------------------------------------------------------------
-Init == l = 1 /\ nbad = 0 /\ nsteps = 0 /\ ndrift = 0 /\ ncand = 0 /\ nvals = 0
+Init == l = 1 /\ nbad = 0 /\ nsteps = 0 /\ ndrift = 0 /\ ncand = 0 /\ nvals = 0 /\ ncomp = 0
 Step == /\ l <= Len(Rec)
         /\ LET r == Rec[l]
                ob == VmObs(r)
@@ -111,22 +142,27 @@ Step == /\ l <= Len(Rec)
                badS == {i \in steps : StepBad(ev, i) # "ok"}
                badE == {i \in 1..Len(ev) : IsEnter(ev[i]) /\ EnterBad(ev, i) # "ok"}
                drift == IF whole THEN {i \in steps : Drift(r, vm, ev, i)} ELSE {}
+               driftE == {i \in 1..Len(ev) : IsEnter(ev[i]) /\ EnterDrift(ev, i)}
                names == IF has THEN VarNames(r) ELSE {}
                cands == IF has /\ "blocks" \in DOMAIN vm THEN Candidates(r, vm) ELSE {}
+               cdrift == has /\ "blocks" \in DOMAIN vm /\ CompileDrift(r, vm)
            IN /\ nbad' = nbad + Cardinality(badS) + Cardinality(badE)
               /\ nsteps' = nsteps + Cardinality(steps)
-              /\ ndrift' = ndrift + Cardinality(drift)
+              /\ ndrift' = ndrift + Cardinality(drift) + Cardinality(driftE) + (IF cdrift THEN 1 ELSE 0)
+              /\ ncomp' = ncomp + (IF has /\ ~HasLit(r.tree) THEN 1 ELSE 0)
+              /\ (cdrift => PrintT(<<"DRIFT", r.id, ToJson([instr |-> "compile", model |-> C(r.tree)])>>))
               /\ ncand' = ncand + Cardinality(cands)
               /\ nvals' = nvals + (IF has THEN Len(Pool) ^ Cardinality(names) ELSE 0)
               /\ \A i \in badS : PrintT(<<"VERDICT", r.id, StepBad(ev, i), ToJson([frame |-> ev[i].f, pc |-> ev[i].pc, depth |-> EnterOf(ev, ev[i].f).g])>>)
               /\ \A i \in badE : PrintT(<<"VERDICT", r.id, EnterBad(ev, i), ToJson([frame |-> ev[i].f, parent |-> ev[i].p, depth |-> ev[i].g])>>)
               /\ \A i \in drift : PrintT(<<"DRIFT", r.id, ToJson([frame |-> ev[i].f, pc |-> ev[i].pc, instr |-> EnterOf(ev, ev[i].f).code[ev[i].pc + 1].op])>>)
+              /\ \A i \in driftE : PrintT(<<"DRIFT", r.id, ToJson([frame |-> ev[i].f, parent |-> ev[i].p, depth |-> ev[i].g, instr |-> "enter"])>>)
               /\ \A c \in cands : PrintT(<<"CAND", r.id, ToJson([n \in names |-> Pool[c[n]]])>>)
         /\ l' = l + 1
 Done == /\ l = Len(Rec) + 1
-        /\ PrintT(<<"SUMMARY", Len(Rec), nbad, nsteps, ndrift, ncand, nvals>>)
+        /\ PrintT(<<"SUMMARY", Len(Rec), nbad, nsteps, ndrift, ncand, nvals, ncomp>>)
         /\ l' = l + 1
-        /\ UNCHANGED <<nbad, nsteps, ndrift, ncand, nvals>>
+        /\ UNCHANGED <<nbad, nsteps, ndrift, ncand, nvals, ncomp>>
 Next == Step \/ Done
 Spec == Init /\ [][Next]_vars
 Accepted == TLCGet("stats").diameter = Len(Rec) + 2
